@@ -9,6 +9,7 @@
    srcparsers.oe500.parseSRCToJson (Model/Hwdiags.v).  [spells w b]: the hex word w, in any letter case,
    spells the bytes b. *)
 From Coq Require Import List NArith ZArith Bool Arith.
+From PV Require Model.Pretty Model.JsonLoads Proofs.JsonLoadsFacts.
 From PV Require Import Base.Bytes Base.Lit Base.Json Base.Utf8 Model.Hwdiags Spec.HwdiagsSpec
                        Proofs.HwdiagsUtf8 Proofs.HwdiagsFacts.
 Import ListNotations.
@@ -94,9 +95,24 @@ Print Assumptions C20_hex_faithful.
 (* callout FFDC: a text that does not end in U+0000, encoded as UTF-8 and padded with any number of NULs,
    is shown as the value json.loads gives for exactly that text *)
 Theorem C20_ffdc : forall cd version t b k, utf8_encode t = Some b -> ends_nul t = false ->
-  oe500_ud cd 3 version (b ++ repeat 0 k) = HwOk (ffdc_render t).
+  oe500_ud cd 3 version (b ++ repeat 0 k) = ffdc_render t.
 Proof. exact ffdc_ok. Qed.
 Print Assumptions C20_ffdc.
+
+(* ... and that value is the encoded one: for every JSON value j (no floats, scalar-value strings, distinct keys, integers
+   within the digit limit, nesting <= 200) and every text of it - json.dumps(j), json.dumps(j, indent=..), any blanks - the
+   section shows j itself; text json.loads rejects makes the parser raise (the PEL layer then shows the error note and the
+   hex dump, C04 / C18) *)
+Theorem C20_ffdc_value : forall t j, Pretty.tokens t = Some (JsonLoadsFacts.toks j) -> JsonLoadsFacts.wf_json j ->
+  ffdc_render t = HwOk (JObj [(L "Callout List FFDC", j)]).
+Proof.
+  intros t j Ht Hj. unfold ffdc_render, ffdc_of_text. rewrite (JsonLoadsFacts.loads_of_tokens t j Ht Hj). reflexivity.
+Qed.
+Print Assumptions C20_ffdc_value.
+
+Theorem C20_ffdc_not_json : forall t, JsonLoads.loads t = JsonLoads.LError -> ffdc_render t = HwRaise.
+Proof. intros t H. unfold ffdc_render, ffdc_of_text. rewrite H. reflexivity. Qed.
+Print Assumptions C20_ffdc_not_json.
 
 (* SRC details use words 6..8 (words 2..5 and 9 are arbitrary) and characters 6..7 of the reference code *)
 Theorem C20_src : forall cd refcode s w2 w3 w4 w5 w6 w7 w8 w9, asig_wf s ->
